@@ -31,6 +31,7 @@ pub fn run(rep: &mut Report, tier: Tier, sel: &[&str], eval: Eval<'_>) {
             "cp" => u_cp(rep, tier, eval),
             "vtok" => u_vtok(rep, tier, eval),
             "nest" => u_nest(rep, tier, eval),
+            "reopen" => u_reopen(rep, tier, eval),
             "utf8" => u_utf8(rep, tier, eval),
             other => panic!("unknown universe {}", other),
         }
@@ -844,4 +845,55 @@ fn u_nest(rep: &mut Report, _tier: Tier, eval: Eval<'_>) {
     let f = |s: &str, acc: &mut Acc| eval(s.as_bytes(), "U-nest", acc);
     let (total, acc) = sweep_list(&cases, &f);
     rep.absorb("U-nest", "9 nesting constructs + dotted keys below 1-3 outer levels x depths {1, 2, 3, L/2, L-3 .. L+2, L+20, L+48} around the limit L the library enforces (80)", total, true, t0, acc);
+}
+
+
+/// headers in every order, inside-out and interleaved, each section with 0-3 key/value lines: re-opening an implicit
+/// table, sub-table before super-table, siblings between, arrays of tables as the outer level
+pub fn reopen_docs() -> Vec<String> {
+    let paths = ["p", "p.c", "p.c.x", "p.d", "q"];
+    let bodies = ["", "k1 = 1\n", "k1 = 1\nk2 = 2\n", "k3 = 3\nk1 = 1\nk2 = 2\n"];
+    let mut seqs: Vec<Vec<usize>> = vec![vec![]];
+    let mut all: Vec<Vec<usize>> = Vec::new();
+    for _ in 0..4 {
+        let mut next = Vec::new();
+        for sq in &seqs {
+            for i in 0..paths.len() {
+                if !sq.contains(&i) {
+                    let mut t = sq.clone();
+                    t.push(i);
+                    next.push(t);
+                }
+            }
+        }
+        all.extend(next.iter().cloned());
+        seqs = next;
+    }
+    let mut out = Vec::new();
+    for sq in &all {
+        for body in bodies {
+            for aot in [false, true] {
+                // (with `aot`, the outermost table `p` is an array of tables and everything below hangs off its last element)
+                let mut d = String::from("top = 0\n");
+                for i in sq {
+                    if aot && paths[*i] == "p" {
+                        d.push_str("[[p]]\n");
+                    } else {
+                        d.push_str(&format!("[{}]\n", paths[*i]));
+                    }
+                    d.push_str(body);
+                }
+                out.push(d);
+            }
+        }
+    }
+    out
+}
+
+fn u_reopen(rep: &mut Report, _tier: Tier, eval: Eval<'_>) {
+    let t0 = Instant::now();
+    let cases = reopen_docs();
+    let f = |s: &str, acc: &mut Acc| eval(s.as_bytes(), "U-reopen", acc);
+    let (total, acc) = sweep_list(&cases, &f);
+    rep.absorb("U-reopen", "every ordered selection of <= 4 headers from {p, p.c, p.c.x, p.d, q} x 4 section bodies (0-3 key/value lines) x {[p], [[p]]}", total, true, t0, acc);
 }
